@@ -90,6 +90,12 @@ func main() {
 			fmt.Sscan(os.Args[4], &cfg)
 		}
 		props.OneShot(os.Args[2], os.Args[3], cfg)
+	case "c17storm":
+		rounds := 500
+		if len(os.Args) > 4 {
+			fmt.Sscan(os.Args[4], &rounds)
+		}
+		props.C17Storm(os.Args[2], os.Args[3], rounds)
 	case "c06conc":
 		rounds := 3
 		if len(os.Args) > 4 {
